@@ -4,6 +4,8 @@
 # Expected: exit 1 with a VIOLATION line.  Usage: tools/seeded.sh [dir ...]
 cd "$(dirname "$0")/.."
 dirs=${@:-$(ls -d seeded/*/ 2>/dev/null)}
+# every scratch worktree path gets its own entries in the Go build cache: drop entries unused for 2 h
+find /root/.cache/go-build -type f -amin +120 -delete 2>/dev/null
 tier=${TIER:-quick}
 for d in $dirs; do
   d=${d%/}
